@@ -25,8 +25,8 @@ Definition seal_premises (s : wstate) : Prop :=
   legacy_net s && (s_height s <? 978392) = false /\
   (forall t k1, In t (sorted_txs s) -> tx_pool t = Some k1 -> In k1 K /\ LDk SO k1 <> fst k1 /\ LDk SO k1 <> snd k1) /\
   NoDup (key_pairs (sorted_txs s)) /\
-  (forall t c, In t (sorted_txs s) -> s_coins s !! key0 t = Some c -> as_declared c (out0 t)) /\
-  (forall t c, In t (sorted_txs s) -> s_coins s !! key1 t = Some c -> as_declared c (out1 t)) /\
+  (forall t c, In t (sorted_txs s) -> s_coins s !! key0 t = Some c -> as_declared t c (out0 t)) /\
+  (forall t c, In t (sorted_txs s) -> s_coins s !! key1 t = Some c -> as_declared t c (out1 t)) /\
   nsum (map (fun t => cd_value (out0 t)) (sorted_txs s)) < U128 /\
   nsum (map (fun t => cd_value (out1 t)) (sorted_txs s)) < U128 /\
   (forall s2 s3, process_swaps (create_builtins s) = Ok s2 -> process_deposits SO s2 = Ok s3 ->
@@ -91,8 +91,8 @@ Lemma seal_premises_def s :
   legacy_net s && (s_height s <? 978392) = false /\
   (forall t k1, In t (sorted_txs s) -> tx_pool t = Some k1 -> In k1 K /\ LDk SO k1 <> fst k1 /\ LDk SO k1 <> snd k1) /\
   NoDup (key_pairs (sorted_txs s)) /\
-  (forall t c, In t (sorted_txs s) -> s_coins s !! key0 t = Some c -> as_declared c (out0 t)) /\
-  (forall t c, In t (sorted_txs s) -> s_coins s !! key1 t = Some c -> as_declared c (out1 t)) /\
+  (forall t c, In t (sorted_txs s) -> s_coins s !! key0 t = Some c -> as_declared t c (out0 t)) /\
+  (forall t c, In t (sorted_txs s) -> s_coins s !! key1 t = Some c -> as_declared t c (out1 t)) /\
   nsum (map (fun t => cd_value (out0 t)) (sorted_txs s)) < U128 /\
   nsum (map (fun t => cd_value (out1 t)) (sorted_txs s)) < U128 /\
   (forall s2 s3, process_swaps (create_builtins s) = Ok s2 -> process_deposits SO s2 = Ok s3 ->
